@@ -53,6 +53,10 @@ Proof.
   f_equal. exact IH.
 Qed.
 
+(* the step at 508 either moves on to the link of that block or returns *)
+Lemma e3_next_cases fxc l nb e : e3_next fxc l nb e = goto l (E2 nb) \/ exists r, e3_next fxc l nb e = finish l (REmpty r).
+Proof. unfold e3_next. destruct fxc; [destruct e|]; eauto. Qed.
+
 (* ---- run-alone semantics *)
 Section Seq.
   Variable B : nat.
